@@ -241,6 +241,20 @@ def mutate_xml(e, r):
     return e
 
 
+def relayout_xml(e, r):
+    """The same XML data laid out differently: blanks / line breaks / indentation around every element's text (also where
+    there is no text).  Element text is data modulo surrounding whitespace (the code's own equality; C02's anchors name it)."""
+    import copy
+    e = copy.deepcopy(e)
+    for n in e.iter():
+        pad = lambda: r.choice(("", " ", "\n", "\n  ", "\t", "  \n    "))
+        if n.text is None:
+            n.text = r.choice((None, pad())) or None
+        else:
+            n.text = pad() + n.text.strip() + pad()
+    return e
+
+
 def build_xml(e, opts):
     from graphtage import xml as gxml
     return gxml.build_tree(e, build_options(opts))
@@ -566,5 +580,14 @@ def random_pyobj_pair(r, opts):
     from graphtage import pydiff
     a = random_pyobj(r, 2)
     b = mutate_pyobj(a, r) if r.random() < 0.8 else random_pyobj(r, 2)
+    if r.random() < 0.3:
+        # what only Python objects and pickles hold: bytes (their "characters" are integers of 1-3 digits) and sets, incl. a
+        # mapping REPLACED by a set and the other way round
+        bts = (b"hello world", b"goodbye", b"\x89PNG header", b"GIF89a header!", b"", b"a", b"ab\x00\xff", b"abc")
+        sets = ({1, 2, 3}, {1, 2, 4}, set(), {"x"}, frozenset(["x", "y"]), {"k": 1}, {"k": 1, "j": [1]}, {2})
+        a = {"payload": r.choice(bts), "tags": r.choice(sets), "rest": a}
+        b = {"payload": r.choice(bts), "tags": r.choice(sets), "rest": b}
+        if r.random() < 0.3:
+            a, b = [a["payload"], a["tags"]], [b["payload"], b["tags"]]
     bo = build_options(opts)
     return pydiff.build_tree(a, bo), pydiff.build_tree(b, bo)
